@@ -9,7 +9,6 @@ import (
 	"maps"
 	"net/http"
 	"strings"
-	"sync"
 	"sync/atomic"
 	"time"
 	"unicode/utf8"
@@ -62,7 +61,7 @@ type HttpForwarderHandlerV2 struct {
 	metricsSem            chan struct{}
 	metricsMergingSem     chan struct{}
 	client                *http.Client
-	eventWg               sync.WaitGroup
+	eventWg               eventCounter
 	compress              bool
 	compressionType       web.CompressionType
 	compressionLevel      int
